@@ -96,6 +96,13 @@ func isNonFatalConfig(
 		if !common.IsDistributionFilled(distribution) {
 			return false
 		}
+
+		// divider may not create entries for some priorities at all
+		for _, priority := range combination {
+			if distribution[priority] == 0 {
+				return false
+			}
+		}
 	}
 
 	return true
@@ -207,6 +214,13 @@ func isSuitableConfig(
 
 		if !common.IsDistributionFilled(distribution) {
 			return false
+		}
+
+		// divider may not create entries for some priorities at all
+		for _, priority := range combination {
+			if distribution[priority] == 0 {
+				return false
+			}
 		}
 
 		divider(combination, referenceTotalQuantity, reference)
